@@ -276,6 +276,10 @@ def concretise(shape, entry, dims, rng, tier, k):
         conn["rbuf_c"] = conn["rbuf_t"] = 65536
     conn["rhold_c"] = shape.get("rhold") == "c"
     conn["rhold_t"] = shape.get("rhold") == "t"
+    # an optimistic SOCKS client: the first octets of its stream travel in the same write as the SOCKS request (SOCKS5:
+    # greeting, request and payload pipelined), before it has read the proxy's reply
+    if entry.startswith("socks") and not conn["refuse"] and k % 3 == 0:
+        conn["eager"] = [1, 7, 300, 3200][(k // 3) % 4]
     return conn
 
 
@@ -534,13 +538,15 @@ def self_test(work, accepted_recs, strict=True):
             muts.append(("tcp_bytes_lost", m, {"tcp_bytes_lost"}))
             break
     # the local connection left hanging after the target closed
-    for r in tcp:
-        if any(e["ev"] == "close" for e in r["T"]) and any(e["ev"] == "eof" for e in r["C"]):
-            m = clone(r)
-            i = [i for i, e in enumerate(m["C"]) if e["ev"] == "eof"][0]
-            m["C"][i] = dict(ev="timeout", what="eof", peer_fin=True)
-            muts.append(("left_hanging", m, {"left_hanging"}))
-            break
+    # (a target that half-closed first makes the missing end-of-stream a half-close that was not propagated: prefer a
+    # target that closed without half-closing, else accept either signature)
+    cands = [r for r in tcp if any(e["ev"] == "close" for e in r["T"]) and any(e["ev"] == "eof" for e in r["C"])]
+    plain = [r for r in cands if not any(e["ev"] == "hc" for e in r["T"])]
+    for r in (plain or cands)[:1]:
+        m = clone(r)
+        i = [i for i, e in enumerate(m["C"]) if e["ev"] == "eof"][0]
+        m["C"][i] = dict(ev="timeout", what="eof", peer_fin=True)
+        muts.append(("left_hanging", m, {"left_hanging"} if plain else {"left_hanging", "halfclose_not_propagated"}))
     # a half-close that never arrives at the target
     for r in tcp:
         if any(e["ev"] == "hc" for e in r["C"]) and not any(e["ev"] == "close" for e in r["C"][:-1]) and any(e["ev"] == "eof" for e in r["T"]):
